@@ -1695,17 +1695,20 @@ def rule_empty_reduce(repo, col):
                     c.func.value.attr == 'data' and not c.args):
                 continue
             # inside the branch for the whole table?
-            cur, whole, guarded = c, False, False
+            from .flow import reached_under
+            cur, guarded = c, False
             while id(cur) in par:
                 p = par[id(cur)]
                 if isinstance(p, ast.If) and cur is not p.test:
                     t = unparse(p.test, 200)
-                    if "'whole'" in t and cur in p.body:
-                        whole = True
-                    elif any(w in t for w in ('.size', '.nnz', 'len(',
-                                              '.getnnz')):
+                    if any(w in t for w in ('.size', '.nnz', 'len(',
+                                            '.getnnz')):
                         guarded = True
                 cur = p
+            axp = [a.arg for a in fn.args.args if a.arg != 'self'][:1]
+            whole = bool(axp) and reached_under(
+                fn, c, {axp[0]: 'whole'}) is True and reached_under(
+                fn, c, {axp[0]: 'sample'}) is False
             if not whole:
                 continue
             n += 1
@@ -1720,13 +1723,14 @@ def rule_empty_reduce(repo, col):
         # the whole-table extremum taken from the per-axis results: those
         # hold a placeholder (0) for vectors without stored values
         deleg = None
-        for t in ast.walk(fn):
-            if isinstance(t, ast.If) and "'whole'" in unparse(t.test, 200):
-                for x in t.body:
-                    for c in ast.walk(x):
-                        if isinstance(c, ast.Call) and dotted(c.func) in (
-                                'self.min', 'self.max'):
-                            deleg = c
+        from .flow import reached_under as _ru
+        axp_ = [a.arg for a in fn.args.args if a.arg != 'self'][:1]
+        for c in ast.walk(fn):
+            if isinstance(c, ast.Call) and dotted(c.func) in (
+                    'self.min', 'self.max') and axp_ and \
+                    _ru(fn, c, {axp_[0]: 'whole'}) is True and \
+                    _ru(fn, c, {axp_[0]: 'sample'}) is False:
+                deleg = c
         if deleg is not None:
             n += 1
             col.bad(rule, TABLE, q, 'whole:from-per-axis', deleg,
